@@ -6,6 +6,7 @@
 //! simcheck digest <Cxx> <runs>            print per-batch digest (used across processes)
 
 #![allow(dead_code)]
+mod custom_str;
 mod engine;
 mod gen;
 mod oracle;
